@@ -28,7 +28,9 @@ Definition first_key (n : node) : option Z := match entries n with (k, _) :: _ =
 Definition last_key (n : node) : option Z := match last_opt (entries n) with Some (k, _) => Some k | None => None end.
 Definition key_at_idx (n : node) (i : nat) : option Z := match nth_error (entries n) i with Some (k, _) => Some k | None => None end.
 
-Definition F := 64.
+(* descent / climb fuel: one more than the height of the tree at hand (the Go loops run until they
+   reach a leaf / the root; no node is deeper than the height of the root) *)
+Definition fuel_of (r : node) : nat := S (maxheight r).
 
 (* climb for Next: go up until an entry at index e exists *)
 Fixpoint climb_next (cmp : cmpf) (root : node) (fuel : nat) (path : list nat) (key : Z) : ipos :=
@@ -77,7 +79,7 @@ Definition inext (cmp : cmpf) (root : option node) (it : ipos) : ipos :=
     match root with
     | None => IEnd
     | Some r =>
-      let p := leftmost F r in
+      let p := leftmost (fuel_of r) r in
       match node_at r p with
       | Some n => match first_key n with Some k => IBetween p k | None => IEnd end
       | None => IEnd
@@ -93,7 +95,7 @@ Definition inext (cmp : cmpf) (root : option node) (it : ipos) : ipos :=
         let e := fst (search cmp key (entries n)) in
         match nth_error (children n) (e + 1) with
         | Some c =>
-          let p := path ++ (e + 1) :: leftmost F c in
+          let p := path ++ (e + 1) :: leftmost (fuel_of r) c in
           match node_at r p with
           | Some n' => match first_key n' with Some k => IBetween p k | None => IEnd end
           | None => IEnd
@@ -101,7 +103,7 @@ Definition inext (cmp : cmpf) (root : option node) (it : ipos) : ipos :=
         | None =>
           match key_at_idx n (e + 1) with
           | Some k => IBetween path k
-          | None => climb_next cmp r F path key
+          | None => climb_next cmp r (fuel_of r) path key
           end
         end
       end
@@ -115,7 +117,7 @@ Definition iprev (cmp : cmpf) (root : option node) (it : ipos) : ipos :=
     match root with
     | None => IBegin
     | Some r =>
-      let p := rightmost F r in
+      let p := rightmost (fuel_of r) r in
       match node_at r p with
       | Some n => match last_key n with Some k => IBetween p k | None => IBegin end
       | None => IBegin
@@ -131,7 +133,7 @@ Definition iprev (cmp : cmpf) (root : option node) (it : ipos) : ipos :=
         let e := fst (search cmp key (entries n)) in
         match nth_error (children n) e with
         | Some c =>
-          let p := path ++ e :: rightmost F c in
+          let p := path ++ e :: rightmost (fuel_of r) c in
           match node_at r p with
           | Some n' => match last_key n' with Some k => IBetween p k | None => IBegin end
           | None => IBegin
@@ -139,7 +141,7 @@ Definition iprev (cmp : cmpf) (root : option node) (it : ipos) : ipos :=
         | None =>
           if (1 <=? e)%nat then
             match key_at_idx n (e - 1) with Some k => IBetween path k | None => IBegin end
-          else climb_prev cmp r F path key
+          else climb_prev cmp r (fuel_of r) path key
         end
       end
     end
